@@ -56,7 +56,10 @@ def _case(draw, tier, force_pre_entry=False):
         "nested": prob(draw, 0.0 if force_pre_entry else 0.2),
         "limit_off": draw(st.integers(0, 3)),
         "entry": 0,
-        "exit_ext": prob(draw, 0.35),  # the exit node takes an external input only (reached through the gate's control edge alone)
+        "exit_ext": prob(draw, 0.35),
+        "stop_none": draw(st.booleans()),  # a route gate that ends the loop by deciding None rather than END
+        # the gate is cacheable and the loop runs three times on one runner that carries a cache (decisions are restored from it)
+        "cache_gate": prob(draw, 0.3),  # the exit node takes an external input only (reached through the gate's control edge alone)
     }
     if form in ("selfsignal", "chat") or L["acc"]:
         L["nullable"] = False
@@ -145,6 +148,21 @@ def check_case(case, ev):
     ctx2 = Ctx()
     g2 = make_graph(ctx2, gspec, "sync")
     _compare("async", L, run_async(g2, vals, **kw), ctx2, env, counts)
+
+    if L.get("cache_gate") and not L.get("nested"):
+        from hypergraph import AsyncRunner, SyncRunner
+        from hypergraph.cache import InMemoryCache
+
+        cspec = {**gspec, "nodes": [({**n, "cache": True} if n["k"] in ("ifelse", "route") else n) for n in gspec["nodes"]]}
+        for rk in ("sync", "async"):
+            ctxc = Ctx()
+            gc = make_graph(ctxc, cspec, "sync")
+            runner_c = SyncRunner(cache=InMemoryCache()) if rk == "sync" else AsyncRunner(cache=InMemoryCache())
+            for rep in range(3):
+                ctxc.reset()
+                oc = (run_sync if rk == "sync" else run_async)(gc, vals, runner=runner_c, **kw)
+                _compare(f"{rk}, cacheable gate, run {rep} on one cache", L, oc, ctxc, env, counts)
+        labels.add("cacheable_gate_three_runs")
 
     outs_all = [o for n in gspec["nodes"] for o in n.get("outs", [])]
     if case.get("explicit") and not L.get("nested") and len(outs_all) == len(set(outs_all)):
